@@ -169,6 +169,7 @@ pub(crate) struct EvolveProposeCreatedReport {
     pub(crate) files_posix: Vec<String>,
     pub(crate) committed: bool,
     pub(crate) commit_warning: Option<String>,
+    pub(crate) skipped: Vec<EvolveProposeSkippedItem>,
 }
 
 #[derive(Debug, Clone, serde::Serialize)]
@@ -751,5 +752,6 @@ pub(crate) fn evolve_propose_in(
         files_posix,
         committed,
         commit_warning,
+        skipped,
     }))
 }
